@@ -108,6 +108,9 @@ class Flow:
                             return ast.fix_missing_locations(ast.copy_location(ast.Subscript(value=st.value, slice=ast.Constant(i), ctx=ast.Load()), st.value))
         if isinstance(st, ast.AnnAssign) and st.value is not None and isinstance(st.target, ast.Name) and st.target.id == name:
             return st.value
+        if isinstance(st, ast.AugAssign) and isinstance(st.target, ast.Name) and st.target.id == name:
+            # x op= v  binds  x op v  (the x on the right is the value reaching the statement)
+            return ast.fix_missing_locations(ast.copy_location(ast.BinOp(left=ast.Name(id=name, ctx=ast.Load()), op=st.op, right=st.value), st))
         return None
 
     def _drop_overwritten(self, live, decide):
